@@ -39,6 +39,12 @@ var c15Texts = []yamlText{
 	{"long", "long " + strings.Repeat("word ", 60)}, {"long", strings.Repeat("x", 300)},
 	{"date-like", "2023-01-01"}, {"date-like", "12:30"}, {"date-like", "2001-12-14t21:59:43.10-05:00"},
 	{"control", "bell\x07"}, {"control", "esc\x1b[0m"}, {"control", "del\x7f"},
+	// code points above U+FFFF: printable (emoji, CJK extension B, mathematical letters) and not
+	// (tag characters as in subdivision flags, private use planes 15/16, variation selectors supplement)
+	{"astral", "flag\U0001F3F4\U000E0067\U000E0062\U000E0073\U000E0063\U000E0074\U000E007F"}, {"astral", "pua\U000F0000x\U0010FFFDy"}, {"astral", "\U00020000cjk-b"},
+	{"astral", "math\U0001D400\U0001D7FF"}, {"astral", "vs\U000E0100end"}, {"astral", "\U0001F468\u200d\U0001F469\u200d\U0001F467family"},
+	// other format / unassigned / surrogate-adjacent code points inside the BMP
+	{"format", "zwsp\u200bx"}, {"format", "shy\u00adx"}, {"format", "lrm\u200ex"}, {"format", "wj\u2060x"}, {"format", "\ufffdrepl"}, {"format", "\ufff9ia"}, {"format", "nel\u0085x"}, {"format", "\ue000pua"},
 }
 
 type valCase struct {
